@@ -417,6 +417,7 @@ def _pointee_written(m):
 
 def run(ck, progs):
     describe(ck)
+    ck.rule("R05x", "the label copied into a Clustal/MSF output line is measured no more generously than the measure the line was sized from (= R15l): strnlen with the same cap, not strlen")
     for cfg, prog in progs.items():
         n = ck.attempt(r05a, ck, prog)
         ck.floor("R05a", n, 12, "char-indexed small-table subscripts")
@@ -436,6 +437,8 @@ def run(ck, progs):
         ck.attempt(r05t, ck, prog)
         ck.attempt(r05u, ck, prog)
         ck.attempt(r05w, ck, prog)
+        from . import c15
+        ck.borrow(c15.r15l, prog, "R05x", ("R15l",))
         n = ck.attempt(r05r, ck, prog)
         ck.floor("R05r", n, 3, "line-length bounded accesses")
         ck.attempt(r05p, ck, prog)
@@ -1789,6 +1792,33 @@ def r05j_local(ck, prog, functions=None, table=None):
                     if c is not None and any(r.d["did"] == v.d["did"] for r in c.find("DeclRefExpr")) and \
                             any(m.d.get("rec") == rec and m.d["field"] in (cnt, cap) for m in c.find("MemberExpr")):
                         bounded = True
+                if not bounded:
+                    # a compaction cursor: starts at 0, is incremented at most once per iteration of a counted loop [0, N) whose
+                    # bound is the count / capacity field: cursor <= loop variable < N
+                    from ..affine import loop_range as _lr, single_defs as _sd
+                    for lp in loops:
+                        rg = _lr(lp, _sd(F)) if lp.k == "ForStmt" else None
+                        if rg is None or not (rg[1].is_const() and rg[1].c >= 0):
+                            continue
+                        hi_ok = rg[2].c <= 0 and len(rg[2].t) == 1 and list(rg[2].t.values()) == [1] and \
+                            next(iter(rg[2].t)).split("->")[-1].split(".")[-1] in (cnt, cap)
+                        mods = [u for u in F.body.walk() if ((u.k == "UnaryOperator" and u.d["op"] in ("++", "--")) or u.k == "CompoundAssignOperator" or
+                                                             (u.k == "BinaryOperator" and u.d["op"] == "=")) and u.kids[0].strip().k == "DeclRefExpr" and
+                                u.kids[0].strip().d["did"] == v.d["did"]]
+                        inits = [d for d, _ in local_defs(F, v.d["did"]) if d is not None]
+                        once = all(u.k == "UnaryOperator" and u.d["op"] == "++" and u.within(lp.child("body")) and
+                                   not any(a.k in ("ForStmt", "WhileStmt", "DoStmt") and a.within(lp.child("body")) for a in u.ancestors()) for u in mods
+                                   if not (u.k == "BinaryOperator"))
+                        zero = bool(inits) and all(const_value(d) == 0 for d in inits) and \
+                            not any(u.k == "BinaryOperator" and u.within(lp) for u in mods)
+                        # the increments must lie on disjoint paths or be a single one: at most one per iteration
+                        incs_in = [u for u in mods if u.k == "UnaryOperator"]
+                        single = len(incs_in) == 1
+                        if hi_ok and once and zero and single:
+                            bounded = True
+                            ck.inst("R05j", site(prog, sub, sub.text()[:40]), "%s: %s indexed by the compaction cursor %s <= %s < %s" % (
+                                F.name, b.text(), v.text(), rg[0], rg[2]), prog.config)
+                            n_inst += 1
                 if bounded:
                     continue
                 owner = b.kids[0].text() if b.kids else "?"
